@@ -117,8 +117,10 @@ var Cases = []Case{
 	concCase("C06", "dbworld-conc-free", 1, true, orc("audit-file")),
 	storeCase("C10", "storeworld-ctor", 1, storeworld.RunC10),
 	storeCase("C16", "storeworld-lookup", 1, storeworld.RunC16),
-	liveCase("C11", "storeworld-live", 1, storeworld.LiveOpts{Lookup: true, Expiry: true, SvcFaults: true, CacheFaults: true, Readers: true,
+	liveCase("C11", "storeworld-live", 6, storeworld.LiveOpts{Lookup: true, Expiry: true, SvcFaults: true, CacheFaults: true, Readers: true,
 		Oracles: orc("fresh", "coalesce", "converge", "read-value")}),
+	storeCase("C11", "storeworld-cadence", 1, storeworld.RunC11Cadence),
+	storeCase("C13", "storeworld-corrupt", 1, storeworld.RunC13Corrupt),
 	liveCase("C12", "storeworld-live", 1, storeworld.LiveOpts{Lookup: true, Expiry: true, SvcFaults: true, Readers: true, Close: true,
 		Oracles: orc("read-value", "read-order", "read-blocks")}),
 	storeCase("C12", "storeworld-race", 1, func(s *kernel.Sim) *storeworld.World { return storeworld.RunStoreRace(s, "C12") }),
@@ -126,7 +128,7 @@ var Cases = []Case{
 		Oracles: orc("drop", "lastaccess")}),
 	liveCase("C15", "storeworld-live", 1, storeworld.LiveOpts{Lookup: true, Updaters: true, SvcFaults: true,
 		Oracles: orc("upd-value", "upd-rebuild", "upd-lost", "upd-error", "upd-close")}),
-	liveCase("C13", "storeworld-live", 1, storeworld.LiveOpts{Lookup: true, Restarts: true, CacheFaults: true, SvcFaults: true, Readers: true, Close: true,
+	liveCase("C13", "storeworld-live", 4, storeworld.LiveOpts{Lookup: true, Restarts: true, CacheFaults: true, SvcFaults: true, Readers: true, Close: true,
 		Oracles: orc("doc-shape", "doc-complete", "restart-probe", "converge")}),
 }
 
